@@ -76,11 +76,14 @@ func TestC14_IDTokens(t *testing.T) {
 		ss.presetExp = rapid.SampledFrom([]string{"", "", "", "future-10m", "future-3h", "past"}).Draw(rt, "presetExpiry")
 		ss.issuer = rapid.SampledFrom([]string{"", "", "https://custom-issuer.example"}).Draw(rt, "sessionIssuer")
 		ss.extra = rapid.Bool().Draw(rt, "extraClaims")
-		switch rapid.IntRange(0, 5).Draw(rt, "presetAudience") {
+		switch rapid.IntRange(0, 6).Draw(rt, "presetAudience") {
 		case 0:
 			ss.presetAud = []string{"https://rs.example"}
 		case 1:
 			ss.presetAud = []string{"another-client", "https://rs.example"}
+		case 2:
+			// another party whose name differs from the requesting client's id only in letter case
+			ss.presetAud = []string{"C14"}
 		}
 		rat := h.Now().UTC().Truncate(time.Second)
 		// the integrator's session type: the harness' own, or fosite's openid.DefaultSession (whose Clone is the library's)
